@@ -307,6 +307,33 @@ class _Formats(ast.NodeTransformer):
         return ast.Call(func=ast.Attribute(value=ast.Constant(value=fmt), attr="format", ctx=ast.Load()), args=args, keywords=[])
 
 
+class _Concat(ast.NodeTransformer):
+    """f-strings without format specs / conversions  ->  '+' concatenation of str(...) pieces"""
+
+    def visit_JoinedStr(self, n):
+        for v in n.values:
+            if isinstance(v, ast.FormattedValue):
+                v.value = self.visit(v.value)
+        parts = []
+        for v in n.values:
+            if isinstance(v, ast.Constant):
+                parts.append(ast.Constant(value=str(v.value)))
+            elif isinstance(v, ast.FormattedValue) and v.conversion == -1 and v.format_spec is None:
+                parts.append(ast.Call(func=ast.Name(id="str", ctx=ast.Load()), args=[v.value], keywords=[]))
+            else:
+                return n
+        if not any(isinstance(p, ast.Call) for p in parts):
+            return n
+        e = parts[0]
+        for p in parts[1:]:
+            e = ast.BinOp(left=e, op=ast.Add(), right=p)
+        return e
+
+
+def concat(tree):
+    return _Concat().visit(tree)
+
+
 def formats(tree):
     return _Formats().visit(tree)
 
@@ -337,6 +364,8 @@ def build(kind, dst):
                 tree = guard_clauses(tree)
             elif kind == "formats":
                 tree = formats(tree)
+            elif kind == "concat":
+                tree = concat(tree)
             ast.fix_missing_locations(tree)
             src = ast.unparse(tree)
             compile(src, p, "exec")
@@ -373,6 +402,6 @@ if __name__ == "__main__":
     if "-k" in sys.argv:
         props = [sys.argv[sys.argv.index("-k") + 1]]
         args = [a for a in args if a not in props]
-    kinds = args or ["unparse", "logging", "rename", "extractvar", "swap", "flattenelse", "inlinevar", "synonyms", "guards", "formats"]
+    kinds = args or ["unparse", "logging", "rename", "extractvar", "swap", "flattenelse", "inlinevar", "synonyms", "guards", "formats", "concat"]
     tot = sum(run(k, props) for k in kinds)
     sys.exit(1 if tot else 0)
